@@ -91,7 +91,8 @@ def probe():
 
 def bounds(tier):
     unrep, _ = probe()
-    return {'component_length': '1..2 quick / 1..3 thorough, printable ASCII',
+    return {'component_length': '1..2 quick (2 only for shape d/<c> in the build dir, and for target/'
+                                'prerequisite/ninja-output in all shapes) / 1..3 thorough, printable ASCII',
             'shapes': ['d/<c>', '<c>', '<c>/leaf.o'], 'roots': ['builddir', 'srcdir'],
             'make_unrepresentable_anywhere': unrep['mid'],
             'make_unrepresentable_leading': unrep['lead'],
@@ -113,6 +114,9 @@ def obligations(tier, kf):
                 if fn == 'mo_dir_sentinel' and shape == 1:
                     continue
                 for n in range(1, nmax + 1):
+                    if tier == 'quick' and n == 2 and (shape, rooti) != (0, 0) and \
+                            fn not in ('mt_target', 'md_prereq', 'nt_output'):
+                        continue
                     p = dict(kf, N=n, shape=shape, rooti=rooti, excl=excl)
                     ob = Ob(fn, p, T[n], desc='%s shape#%d root#%d |c|==%d' % (fn, shape, rooti, n))
                     obs.append(ob)
@@ -125,7 +129,7 @@ def obligations(tier, kf):
 
 
 MUTANTS = {'mt_target': ['make_target_no_colon'], 'md_prereq': ['make_dep_no_pipe'],
-           'nt_output': ['ninja_path_no_colon'], 'mr_auto_var': ['make_no_dollar']}
+           'nt_output': ['ninja_path_no_colon'], 'mr_auto_var': ['make_qvar_unquoted']}
 
 
 def classify(ob, cex):
